@@ -54,8 +54,6 @@ func C08_Iterators() {
 	maxOverlay := 1
 	if vTier() == "thorough" {
 		cfg.nKeys = 4
-		cfg.lenVars = 2
-		maxOverlay = 2
 	}
 	h := vStartHist(cfg)
 	n := h.p.n
